@@ -50,7 +50,8 @@ class CsrEvMonWorld(World):
                 # occupy (None: implicit placement) and which of the two is added first
                 "dec_slots": rng.choice([None, None] + [[a, b] for a in range(4) for b in range(4)
                                                         if a != b]),
-                "dec_mon_first": int(rng.chance(0.5)), "omit": int(rng.chance(0.3))}
+                "dec_mon_first": int(rng.chance(0.5)), "omit": int(rng.chance(0.3)),
+                "dec_al": rng.choice([0, 0, 1, 2, 3])}
 
     def gen_ops(self, rng, config, prop):
         dw = config["dw"]
@@ -109,10 +110,14 @@ class CsrEvMonWorld(World):
             bus = dut.bus
             mmap = dut.bus.memory_map
         elif attach == "decoder":
-            dec = csr.Decoder(addr_width=dut.bus.addr_width + 2, data_width=dw)
+            # the decoder may have a (small) alignment of its own
+            unit = max(dut.bus.addr_width, int(config.get("dec_al") or 0))
+            dec = csr.Decoder(addr_width=unit + 2, data_width=dw,
+                              **hw.spelled(True, {"alignment": 0},
+                                           alignment=int(config.get("dec_al") or 0)))
             slots = config.get("dec_slots")
             if not slots:
-                dec.align_to(dut.bus.addr_width)
+                dec.align_to(unit)
                 dec.add(_pad_bus(csr, dw), name="pad")
                 dec.add(dut.bus, name="mon")
             else:
@@ -123,7 +128,7 @@ class CsrEvMonWorld(World):
                 if not config.get("dec_mon_first"):
                     adds.reverse()
                 for b_, nm_, slot_ in adds:
-                    dec.add(b_, name=nm_, addr=slot_ << dut.bus.addr_width)
+                    dec.add(b_, name=nm_, addr=slot_ << unit)
                 stats.fault("decoder_windows_at_explicit_addresses_in_any_order")
             top.submodules.dec = dec
             bus = dec.bus
